@@ -114,6 +114,7 @@ let stage_msg (st : Bounded.stage) : string option =
   | Bounded.StAlloc -> Some "Cannot allocate"
   | Bounded.StNoContent -> Some "No content found"
   | Bounded.StNotesRead off -> Some (Printf.sprintf "Cannot read ELF notes at %s" (dec_n off))
+  | Bounded.StNotesExtent -> Some "ELF notes extends beyond end of file"
   | Bounded.StStrtab -> None
   | _ -> None
 
@@ -132,7 +133,7 @@ let chunk_bytes (c : Bounded.chunk) (maxn : int) : string =
   done;
   Buffer.contents b
 
-let elf_forbidden = "!err=file_#0:_Cannot_read_ELF_ !err=file_#0:_Invalid_ELF_ !err=file_#0:_No_content " ^
+let elf_forbidden = "!err=file_#0:_Cannot_read_ELF_ !err=file_#0:_Invalid_ELF_ !err=file_#0:_No_content !err=file_#0:_ELF_notes_extends " ^
                     "!err=file_#0:_Too_many_ !err=file_#0:_Unsupported_ELF_"
 
 let elf_ok_tokens (r : ElfModel.elf_result) : string =
